@@ -67,7 +67,11 @@ Qed.
 
 Lemma phys_rename_no_panic (s : physfs) a b : snd (phys_rename s a b) <> Panic.
 Proof.
-  unfold phys_rename, lres_err, fail. repeat (dm; cbn [snd]; try discriminate); discriminate.
+  assert (Hp : forall p e, parent_lookup s p = Some e -> e <> Panic).
+  { intros p e. unfold parent_lookup, lres_err, fail. repeat (dm; try discriminate); intros [= <-]; discriminate. }
+  unfold phys_rename, fail. destruct (parent_lookup s a) eqn:Ea; [cbn [snd]; eapply Hp; eauto|].
+  destruct (parent_lookup s b) eqn:Eb; [cbn [snd]; eapply Hp; eauto|].
+  repeat (dm; cbn [snd]; try discriminate); discriminate.
 Qed.
 
 Lemma phys_no_panic (s : physfs) c : snd (phys_step c s) <> Panic.
